@@ -53,7 +53,13 @@ func newC20World() *c20World {
 		n := atomic.AddInt32(&cw.pullSeq, 1)
 		cw.mu.Unlock()
 		cw.started <- image
-		err := <-g
+		var err error
+		select {
+		case err = <-g:
+		case <-ctx.Done():
+			// like a registry fetch: the pull runs on the context of the caller that started it
+			err = ctx.Err()
+		}
 		cw.mu.Lock()
 		cw.active[image]--
 		cw.mu.Unlock()
@@ -79,7 +85,7 @@ func (cw *c20World) waitInFlight(image string, n int) bool {
 }
 
 type c20Step struct {
-	Op     string `json:"op"` // Req | Release
+	Op     string `json:"op"` // Req | Release | Cancel (the context of the caller that started the pull in flight is cancelled)
 	Caller string `json:"caller"`
 	Image  string `json:"image"`
 	Fail   bool   `json:"fail"`
@@ -105,12 +111,17 @@ func runC20Script(w *World, name string, script []c20Step) {
 	w.Emit(Event{Actor: "sim", Ev: "Reset", Key: "-", Args: map[string]any{"scenario": name}})
 	cw := newC20World()
 	waiting := map[string][]string{} // image -> callers registered for the pull in flight
+	cancels := map[string]context.CancelFunc{} // image -> cancel of the caller that started the pull in flight
 	for _, st := range script {
 		switch st.Op {
 		case "Req":
 			before := cw.rm.VerifInFlight(st.Image)
+			ctx, cancel := context.WithCancel(context.Background())
+			if before == -1 {
+				cancels[st.Image] = cancel
+			}
 			go func(c, img string) {
-				p, err := cw.rm.Pull(context.Background(), img)
+				p, err := cw.rm.Pull(ctx, img)
 				cw.results <- c20Result{c, p, err}
 			}(st.Caller, st.Image)
 			startedPull := false
@@ -134,21 +145,28 @@ func runC20Script(w *World, name string, script []c20Step) {
 			waiting[st.Image] = append(waiting[st.Image], st.Caller)
 			w.Emit(Event{Actor: "c20", Ev: "C20Req", Key: st.Image, Res: map[bool]string{true: "ok", false: "timeout"}[ok],
 				Args: map[string]any{"caller": st.Caller, "image": st.Image, "startedPull": startedPull, "inFlightBefore": before >= 0}})
-		case "Release":
+		case "Release", "Cancel":
 			cw.mu.Lock()
 			g := cw.gates[st.Image]
 			delete(cw.gates, st.Image)
 			cw.mu.Unlock()
+			if st.Op == "Cancel" {
+				st.Fail = true // a cancelled pull is a failed pull: every waiting caller gets exactly one (error) response
+			}
 			if g == nil {
 				w.Emit(Event{Actor: "c20", Ev: "C20Release", Key: st.Image, Res: "nopull",
 					Args: map[string]any{"image": st.Image, "fail": st.Fail, "returned": []any{}, "aliased": false, "entryCleared": true}})
 				continue
 			}
-			if st.Fail {
+			switch {
+			case st.Op == "Cancel" && cancels[st.Image] != nil:
+				cancels[st.Image]()
+			case st.Fail:
 				g <- errors.New("scripted pull failure")
-			} else {
+			default:
 				g <- nil
 			}
+			delete(cancels, st.Image)
 			var got []c20Result
 			timeout := time.After(2 * time.Second)
 			for len(got) < len(waiting[st.Image]) {
@@ -226,7 +244,7 @@ func init() {
 			}
 		}
 		for _, i := range images {
-			alpha = append(alpha, c20Step{Op: "Release", Image: i}, c20Step{Op: "Release", Image: i, Fail: true})
+			alpha = append(alpha, c20Step{Op: "Release", Image: i}, c20Step{Op: "Release", Image: i, Fail: true}, c20Step{Op: "Cancel", Image: i})
 		}
 		var scripts [][]c20Step
 		if a.mode == "enum" {
@@ -244,7 +262,7 @@ func init() {
 							if q.Op == "Req" && q.Caller == s.Caller {
 								busy = true
 							}
-							if q.Op == "Release" && busy {
+							if q.Op != "Req" && busy {
 								// released if the caller waited on that image
 								for _, q2 := range p {
 									if q2.Op == "Req" && q2.Caller == s.Caller && q2.Image == q.Image {
